@@ -56,7 +56,7 @@ def verify_one(diff):
 
 def run_one(diff, ids):
     name = os.path.basename(diff)[:-5]
-    d = os.path.join(VERIF, '.build', 'rfseed', name)
+    d = os.path.join(VERIF, '.build', 'rfseed', '%s-%d' % (name, os.getpid()))
     shutil.rmtree(d, ignore_errors=True)
     os.makedirs(d)
     for sub in ('include', 'development', 'tools'):
